@@ -1,2 +1,22 @@
+import CG.Proofs.C02Core
 import CG.Proofs.Basics
+#print axioms CG.C02.selfDep_iff
+#print axioms CG.C02.selfDep_congr
+#print axioms CG.C02.anySelfDep_eq_none_iff
+#print axioms CG.C02.anySelfDep_eq_none_iff'
+#print axioms CG.C02.anySelfDep_eq_some_iff
+#print axioms CG.C02.acyclicB_iff
+#print axioms CG.C02.acyclicB_iff'
+#print axioms CG.C02.acyclicB_eq_isNone
+#print axioms CG.C02.acyclic_insert_iff
+#print axioms CG.C02.acyclic_insert
+#print axioms CG.C02.acyclic_insert_self
+#print axioms CG.C02.selfDep_insert_iff
+#print axioms CG.C02.selfDep_insert_iff_cyclic
+#print axioms CG.C02.selfDep_insert_iff_of_mem
+#print axioms CG.C02.acyclic_of_subset
+#print axioms CG.C02.acyclic_erase
+#print axioms CG.C02.acyclic_filter
+#print axioms CG.C02.acyclic_congr
+#print axioms CG.C02.acyclic_of_rank
 #print axioms CG.selfDepR_iff
